@@ -893,3 +893,248 @@ Proof.
   induction sched as [|a r IH]; intros st Iv; rewrite ?run_nil, ?run_cons; [exact Iv|].
   apply IH. apply step_inv. exact Iv.
 Qed.
+
+(* ---------- spawning actors on a store, quiescence, restart ---------- *)
+Lemma procs_of_in ps : forall i a p,
+  procs_of i ps a = Some p -> exists x, In x ps /\ p = new_proc (fst x) (snd x).
+Proof.
+  induction ps as [|[prog s] r IH]; intros i a p H; cbn [procs_of] in H; [discriminate|].
+  unfold upd in H. destruct (a =? i).
+  - inversion H. exists (prog, s). split; [left; reflexivity|reflexivity].
+  - destruct (IH _ _ _ H) as [x [Hx E]]. exists x. split; [right; exact Hx|exact E].
+Qed.
+
+Lemma procs_of_lt ps : forall i a p, procs_of i ps a = Some p -> i <= a.
+Proof.
+  induction ps as [|[prog s] r IH]; intros i a p H; cbn [procs_of] in H; [discriminate|].
+  unfold upd in H. destruct (a =? i) eqn:E.
+  - apply N.eqb_eq in E. lia.
+  - apply IH in H. lia.
+Qed.
+
+Lemma procs_of_sessu ps : sess_distinct ps -> forall i a b pa pb,
+  a <> b -> procs_of i ps a = Some pa -> procs_of i ps b = Some pb ->
+  uses_sess (p_rem pa) = true -> uses_sess (p_rem pb) = true -> p_sess pa <> p_sess pb.
+Proof.
+  induction ps as [|[prog s] r IH]; intros Hd i a b pa pb Hne Ha Hb Hua Hub; cbn [procs_of] in *; [discriminate|].
+  destruct Hd as [Hd1 Hd2]. unfold upd in Ha, Hb.
+  destruct (a =? i) eqn:Ea; destruct (b =? i) eqn:Eb.
+  - apply N.eqb_eq in Ea, Eb. congruence.
+  - inversion Ha; subst pa. cbn in Hua. destruct (procs_of_in _ _ _ _ Hb) as [x [Hx E]]. subst pb. cbn in *.
+    rewrite Forall_forall in Hd1. specialize (Hd1 Hua x Hx Hub). congruence.
+  - inversion Hb; subst pb. cbn in Hub. destruct (procs_of_in _ _ _ _ Ha) as [x [Hx E]]. subst pa. cbn in *.
+    rewrite Forall_forall in Hd1. specialize (Hd1 Hub x Hx Hua). congruence.
+  - apply (IH Hd2 (i + 1) a b pa pb Hne Ha Hb Hua Hub).
+Qed.
+
+Theorem spawn_inv ps st :
+  SInv st -> progs_wf ps -> sess_fresh st ps -> sess_distinct ps -> Inv (spawn ps st).
+Proof.
+  intros S Hwf Hsf Hsd.
+  assert (Hnew : forall a p, s_procs (spawn ps st) a = Some p -> exists x, In x ps /\ p = new_proc (fst x) (snd x)).
+  { intros a p H. cbn in H. apply (procs_of_in _ _ _ _ H). }
+  constructor.
+  - apply (si_valid _ S).
+  - intros c n H. left. apply (si_next _ S _ _ H).
+  - apply (si_fresh _ S).
+  - intros a p H Hh. destruct (Hnew a p H) as [x [_ ->]]. discriminate Hh.
+  - intros a p H. destruct (Hnew a p H) as [x [Hx ->]]. cbn. unfold progs_wf in Hwf.
+    rewrite Forall_forall in Hwf. apply (Hwf x Hx).
+  - intros a p H. destruct (Hnew a p H) as [x [_ ->]]. exact I.
+  - intros a p H. destruct (Hnew a p H) as [x [_ ->]]. exact I.
+  - apply (si_tasks _ S).
+  - intros a p H. destruct (Hnew a p H) as [x [Hx ->]]. intros Hu. cbn in *.
+    unfold sess_fresh in Hsf. rewrite Forall_forall in Hsf. symmetry. apply (Hsf x Hx Hu).
+  - intros a b pa pb Hne Ha Hb. cbn in Ha, Hb. apply (procs_of_sessu ps Hsd 0 a b pa pb Hne Ha Hb).
+Qed.
+
+(* when every actor is outside a call the store part of the invariant holds again: more actors
+   may be spawned (histories of any length) *)
+Theorem idle_sinv st : Inv st -> AllIdle st -> SInv st.
+Proof.
+  intros Iv Hid. constructor.
+  - apply (i_valid _ Iv).
+  - intros c n H. destruct (i_next _ Iv _ _ H) as [E|[a [p [Hp Hb]]]]; [exact E|].
+    apply busy_on_holds in Hb. rewrite (Hid a p Hp) in Hb. discriminate.
+  - apply (i_fresh _ Iv).
+  - apply (i_tasks _ Iv).
+Qed.
+
+Theorem empty_sinv : SInv empty_state.
+Proof.
+  constructor; cbn.
+  - apply Valid_nil.
+  - intros c n H. discriminate.
+  - intros c _. split; reflexivity.
+  - intros t _. reflexivity.
+Qed.
+
+(* a restart at ANY point (actors killed wherever they are, sidecars in any condition) *)
+Theorem restart_sinv st :
+  Valid (s_log st) -> (forall c, s_fresh st <= c -> cnext st c = 0) -> SInv (restart st).
+Proof.
+  intros HV Hf. constructor; cbn.
+  - exact HV.
+  - intros c n H. discriminate.
+  - intros c Hc. split; [apply (Hf c Hc)|reflexivity].
+  - intros t _. reflexivity.
+Qed.
+
+Lemma inv_restartable st : Inv st -> Restartable st.
+Proof.
+  intros Iv. constructor; [apply (i_valid _ Iv)|]. intros c Hc. apply (i_fresh _ Iv c Hc).
+Qed.
+
+(* ---------- the theorems of C01 ---------- *)
+Theorem valid_all_schedules ps sched st :
+  SInv st -> progs_wf ps -> sess_fresh st ps -> sess_distinct ps ->
+  Valid (s_log (run sched (spawn ps st))).
+Proof.
+  intros S Hwf Hsf Hsd. apply i_valid. apply run_inv. apply spawn_inv; assumption.
+Qed.
+
+Theorem validate_all_schedules ps sched st :
+  SInv st -> progs_wf ps -> sess_fresh st ps -> sess_distinct ps ->
+  validate (s_log (run sched (spawn ps st))) = true.
+Proof. intros. apply validate_spec. apply valid_all_schedules; assumption. Qed.
+
+Theorem valid_after_restart ps sched ps' sched' st :
+  SInv st -> progs_wf ps -> sess_fresh st ps -> sess_distinct ps ->
+  let crashed := run sched (spawn ps st) in
+  progs_wf ps' -> sess_fresh (restart crashed) ps' -> sess_distinct ps' ->
+  Valid (s_log (run sched' (spawn ps' (restart crashed)))).
+Proof.
+  intros S Hwf Hsf Hsd crashed Hwf' Hsf' Hsd'.
+  assert (Iv : Inv crashed) by (apply run_inv; apply spawn_inv; assumption).
+  apply valid_all_schedules; try assumption.
+  destruct (inv_restartable _ Iv) as [HV Hf]. apply restart_sinv; assumption.
+Qed.
+
+Theorem valid_restart_any_store ps sched st :
+  Restartable st -> progs_wf ps -> sess_fresh (restart st) ps -> sess_distinct ps ->
+  Valid (s_log (run sched (spawn ps (restart st)))).
+Proof.
+  intros [HV Hf] Hwf Hsf Hsd. apply valid_all_schedules; try assumption. apply restart_sinv; assumption.
+Qed.
+
+Theorem sinv_after_quiescence ps sched st :
+  SInv st -> progs_wf ps -> sess_fresh st ps -> sess_distinct ps ->
+  AllIdle (run sched (spawn ps st)) -> SInv (run sched (spawn ps st)).
+Proof. intros S Hwf Hsf Hsd Hid. apply idle_sinv; [|exact Hid]. apply run_inv. apply spawn_inv; assumption. Qed.
+
+(* ---------- the call skeletons are well-formed programs ---------- *)
+Lemma wf_from_app a : forall ph b, wf_from ph a = true -> wf_prog b = true -> wf_from ph (a ++ b) = true.
+Proof.
+  induction a as [|m a IH]; intros ph b Ha Hb.
+  - cbn in Ha. destruct ph; try discriminate Ha. exact Hb.
+  - cbn [app wf_from] in *. destruct (next_phase ph m) as [ph'|]; [|discriminate]. apply IH; assumption.
+Qed.
+
+Lemma wf_prog_app a b : wf_prog a = true -> wf_prog b = true -> wf_prog (a ++ b) = true.
+Proof. apply wf_from_app. Qed.
+
+Lemma wf_prog_concat ls : Forall (fun x => wf_prog x = true) ls -> wf_prog (concat ls) = true.
+Proof.
+  induction 1 as [|x l Hx Hl IH]; [reflexivity|]. cbn [concat]. apply wf_prog_app; assumption.
+Qed.
+
+Lemma wf_locked_call c t ar : is_cont t = true -> wf_prog (MTarget c :: locked_append t ar) = true.
+Proof. intros H. unfold wf_prog, locked_append. cbn [wf_from next_phase]. rewrite H. reflexivity. Qed.
+Lemma wf_post_newest : wf_prog (MPickNewest :: locked_append EContinuityMessageAppended []) = true.
+Proof. reflexivity. Qed.
+Lemma wf_create ar : wf_prog (create_prog ar) = true.
+Proof. reflexivity. Qed.
+Lemma wf_lineage t a1 a2 : is_cont t = true -> wf_prog (lineage_prog t a1 a2) = true.
+Proof. intros H. destruct t; try discriminate H; reflexivity. Qed.
+Lemma wf_session ts : forallb is_sess ts = true -> wf_prog (session_prog ts) = true.
+Proof.
+  induction ts as [|t r IH]; intros H; [reflexivity|]. cbn [forallb] in H. apply andb_true_iff in H.
+  destruct H as [H1 H2]. unfold wf_prog, session_prog. cbn [map wf_from next_phase]. rewrite H1. apply IH. exact H2.
+Qed.
+Lemma wf_task_emit t : is_task t = true -> wf_prog (task_emit t) = true.
+Proof. intros H. unfold wf_prog, task_emit. cbn [wf_from next_phase]. rewrite H. reflexivity. Qed.
+
+Definition cop_ok (o : cop) : bool := match o with OAppend t _ => is_cont t | _ => true end.
+
+Lemma wf_prog_of_cop l o : cop_ok o = true -> wf_prog (prog_of_cop l o) = true.
+Proof.
+  destruct o; cbn [cop_ok prog_of_cop]; intros H.
+  - apply wf_locked_call. exact H.
+  - apply wf_post_newest.
+  - apply (wf_prog_app [MTarget _; MRead]); [reflexivity|apply wf_lineage; reflexivity].
+  - apply (wf_prog_app [MTarget _; MRead]); [reflexivity|apply wf_lineage; reflexivity].
+  - reflexivity.
+Qed.
+
+(* the actors of a correspondence case satisfy the hypotheses of the theorem *)
+Lemma actors_of_wf l acts :
+  forallb (forallb cop_ok) acts = true -> progs_wf (actors_of l acts).
+Proof.
+  unfold progs_wf, actors_of. induction acts as [|ops r IH]; intros H; cbn [map]; constructor.
+  - cbn [forallb] in H. apply andb_true_iff in H. destruct H as [H _]. cbn [fst].
+    apply wf_prog_concat. induction ops as [|o os IHo]; cbn [map]; constructor.
+    + cbn [forallb] in H. apply andb_true_iff in H. apply wf_prog_of_cop. tauto.
+    + apply IHo. cbn [forallb] in H. apply andb_true_iff in H. tauto.
+  - apply IH. cbn [forallb] in H. apply andb_true_iff in H. tauto.
+Qed.
+
+(* ---------- witnesses (named constants, computed once) ---------- *)
+Definition w_st0 : state :=
+  snd (run_calls empty_state [KCap CapEnsureDefault 0%nat fact_ok;
+                              KCap (CapAppend EContinuityMessageAppended) 0%nat fact_ok]).
+(* S5: branch as it was (lineage frame outside the seq mutex) against a post to the newest listed thread *)
+Definition w_s5_actors : list (list mstep * N) :=
+  [(prog_of_cop_unfixed (s_log w_st0) (OBranch 0%nat), 0); (prog_of_cop (s_log w_st0) OPostNewest, 0)].
+Definition w_s5_fixed : list (list mstep * N) :=
+  [(prog_of_cop (s_log w_st0) (OBranch 0%nat), 0); (prog_of_cop (s_log w_st0) OPostNewest, 0)].
+Definition w_s5_sched : list N := repeat 0 8 ++ repeat 1 8 ++ repeat 0 6.
+Lemma w_s5_unfixed_invalid : validate (s_log (run w_s5_sched (spawn w_s5_actors w_st0))) = false.
+Proof. vm_compute. reflexivity. Qed.
+Lemma w_s5_seqs :
+  map seq (cstream 3 (s_log (run w_s5_sched (spawn w_s5_actors w_st0)))) = [0; 1; 1].
+Proof. vm_compute. reflexivity. Qed.
+
+(* S3: load_next_seq_for as it was (sidecar tail) after a restart on a stale well-formed prefix *)
+Definition w_s3_st0 : state :=
+  snd (run_calls empty_state [KCap CapEnsureDefault 0%nat fact_ok;
+                              KCap (CapAppend EContinuityMessageAppended) 0%nat fact_ok;
+                              KCap (CapAppend EContinuityMessageAppended) 0%nat fact_ok;
+                              KFault XCutLine 0%nat; KRestart]).
+Definition w_s3_actors : list (list mstep * N) :=
+  [(prog_of_cop (s_log w_s3_st0) (OAppend EContinuityMessageAppended 0%nat), 0)].
+Lemma w_s3_unfixed_invalid :
+  validate (s_log (run_gen load_next_unfixed (repeat 0 8) (spawn w_s3_actors w_s3_st0))) = false.
+Proof. vm_compute. reflexivity. Qed.
+Lemma w_s3_fixed_valid :
+  validate (s_log (run (repeat 0 8) (spawn w_s3_actors w_s3_st0))) = true
+  /\ nlen (s_log (run (repeat 0 8) (spawn w_s3_actors w_s3_st0))) = 4.
+Proof. vm_compute. split; reflexivity. Qed.
+
+(* S6: two runs on one session id *)
+Definition w_s6_actors : list (list mstep * N) :=
+  [(session_prog [ESessionStarted; ESessionEnded], 7); (session_prog [ESessionStarted], 7)].
+Lemma w_s6_invalid : validate (s_log (run [0; 1] (spawn w_s6_actors empty_state))) = false.
+Proof. vm_compute. reflexivity. Qed.
+Lemma w_s6_hyps : progs_wf w_s6_actors /\ sess_fresh empty_state w_s6_actors.
+Proof. split; repeat constructor. Qed.
+
+(* non-vacuity: five actors (create, post to newest, a run, two pumps of one task) on the empty store *)
+Definition w_ex_actors : list (list mstep * N) :=
+  [(create_prog [], 0);
+   (MPickNewest :: locked_append EContinuityMessageAppended [], 0);
+   (session_prog [ESessionStarted; EOutputTextDelta; ESessionEnded], 7);
+   (task_emit EToolTaskSpawned ++ task_emit EToolTaskOutputDelta, 9);
+   (task_emit EToolTaskOutputDelta, 9)].
+Definition w_ex_sched : list N :=
+  [0; 3; 3; 0; 4; 2; 0; 0; 3; 3; 3; 0; 0; 0; 4; 4; 4; 4; 1; 1; 2; 1; 1; 1; 1; 3; 3; 1; 1; 2; 3; 3; 3]
+  ++ repeat 0 4 ++ repeat 1 8 ++ repeat 4 5 ++ repeat 3 10.
+Lemma w_ex_hyps :
+  SInv empty_state /\ progs_wf w_ex_actors /\ sess_fresh empty_state w_ex_actors /\ sess_distinct w_ex_actors.
+Proof.
+  split; [apply empty_sinv|]. split; [repeat constructor|]. split; [repeat constructor|].
+  cbn. repeat split; try (intros; discriminate); try (intros; repeat constructor; cbn; intros; discriminate).
+Qed.
+Lemma w_ex_log :
+  canon_log (s_log (run w_ex_sched (spawn w_ex_actors empty_state)))
+  = [0; 0; 0;  1; 0; 3;  2; 0; 30;  2; 1; 34;  0; 1; 1;  0; 2; 2;  1; 1; 4;  2; 2; 34].
+Proof. vm_compute. reflexivity. Qed.
